@@ -289,6 +289,21 @@ pub fn kb_attacks(r: &mut Rng, h: &Honest, other: Option<&Honest>, edits: usize,
         l.extend(unselected.iter().map(|d| (*d).clone()));
         out.push(b.with_parts("replay-all-unselected-disclosures-added", jwt, l));
     }
+    // JSON form: the withheld disclosures (or anything else) offered in members the envelope does not define — an unprotected
+    // "header", a second list, another spelling: unknown members release nothing; the verified claims stay those of the
+    // presentation the KB-JWT covers
+    if fmt == Fmt::Json && !unselected.is_empty() {
+        if let Outcome::Ok(honest_claims) = verify(&f.verify_args(&h.pres_text)).out {
+            let withheld: Vec<String> = unselected.iter().map(|d| (*d).clone()).collect();
+            let p = Parts { jwt: jwt.to_string(), disclosures: ds.clone(), kb: h.pres.kb.clone() };
+            for (mname, mval) in [("header", json!({"disclosures": withheld, "kb_jwt": h.pres.kb})), ("unprotected", json!({"disclosures": withheld})), ("disclosures2", json!(withheld)), ("Disclosures", json!(withheld)),
+                                  ("more_disclosures", json!(withheld)), ("_disclosures", json!(withheld)), ("sd", json!({"disclosures": withheld}))] {
+                let mut a = b.asked(&format!("withheld-disclosures-in-an-undefined-member-{}", mname), p.json_form(false, Some((mname, mval))));
+                a.expect = Expect::AcceptWith(honest_claims.clone());
+                out.push(a);
+            }
+        }
+    }
     {
         let forged = b64_json(&json!([b64(&r.next().to_le_bytes()), "admin", true]));
         let mut l = ds.clone();
@@ -543,6 +558,13 @@ fn spelling_matrix(ctx: &mut Ctx) -> Vec<Attack> {
                 "https://verifier.example.org/#", "https://verifier.example.org/?", "https://verifier.example.org.", " https://verifier.example.org", "https://verifier.example.org ", "http://verifier.example.org",
                 "verifier.example.org", "https://verifier.example.org/a/..", "https://verifier.example.org/%2F", "did:web:verifier.example.org", "did:web:verifier.example.org/", "urn:v:1", "urn:v:1/", "x", "x/", "", "/"];
     let nonces = ["n-0123456789", "n-0123456789 ", "N-0123456789", "n-0123456789\n", "n-012345678", "n-01234567890", "", " ", "0", "00", "n-0123456789/", "n\u{2010}0123456789", "1234", "1234.0", "null"];
+    let long_a = format!("https://verifier.example.org/callback?state={}", "s".repeat(1700));
+    let long_b = format!("{}x", &long_a[..long_a.len() - 1]);
+    let long_c = "n".repeat(5000);
+    let mut auds: Vec<&str> = auds.to_vec();
+    auds.extend([long_a.as_str(), long_b.as_str(), long_c.as_str()]);
+    let mut nonces: Vec<&str> = nonces.to_vec();
+    nonces.extend([long_a.as_str(), long_b.as_str(), long_c.as_str()]);
     let mut out = vec![];
     let d = b64_json(&json!(["c2FsdC1mb3ItbWF0cml4", "given_name", "Erika"]));
     let every = ctx.tier == Tier::Thorough;
